@@ -372,6 +372,8 @@ pub fn exec(world: &mut World, op: &Value) -> String {
         "mp_remove" => { let p = pb!(); world.mp.as_ref().unwrap().remove(&p); }
         "mp_set_alignment" => { world.mp.as_ref().unwrap().set_alignment(if op["a"] == "bottom" { MultiProgressAlignment::Bottom } else { MultiProgressAlignment::Top }); }
         "mp_set_move_cursor" => { world.mp.as_ref().unwrap().set_move_cursor(n != 0); }
+        "mp_set_target" => { let t = op.get("target").and_then(|x| x.as_str()).unwrap_or("spy").to_string(); let hz = op.get("hz").and_then(|x| x.as_u64()).unwrap_or(0); let tg = world.target(&t, hz);
+                             world.mp.as_ref().unwrap().set_draw_target(tg); }
         "mp_is_hidden" => { return format!("{}", world.mp.as_ref().unwrap().is_hidden()); }
         "resize" => { world.spy.set_size(op["w"].as_u64().unwrap_or(80) as u16, op["h"].as_u64().unwrap_or(24) as u16); }
         "fail_at" => { let mut g = world.spy.0.lock().unwrap(); let base = g.ncalls; g.fail_at = Some(base + n as usize); g.fail_sticky = op.get("sticky").and_then(|x| x.as_bool()).unwrap_or(false); }
